@@ -148,3 +148,13 @@ def check(ctx):
     # ---- R02-f "the group's remaining tasks are cancelled" includes a task that joins the group after it failed (shared with C03/R03-i)
     from .walkers import join_restarts
     join_restarts(ctx, "R02-f", ("TaskGroup._spawn",), 1)
+
+    # ---- R02-g "cancellation exceptions caused by the group's own shutdown are not reported as errors" and "a cancellation coming from an
+    # enclosing scope passes through" both rest on the classifier telling AnyIO's cancellations from native ones (shared with C01/R01-h)
+    from .common import classifier_total
+    classifier_total(ctx, "R02-g")
+
+    # ---- R02-h "the group's remaining tasks are cancelled" includes a sibling that was inside a shielded section when the group failed:
+    # leaving that section restarts the group scope's idle delivery loop - also when the group's scope is itself shielded (shared with C03/R03-d)
+    from .walkers import restart_walker
+    restart_walker(ctx, "R02-h")
